@@ -10,31 +10,67 @@ open Bifrost Bifrost.Sig
 /-- An active (not replaced) listen call always holds the peer's CURRENT tracker (it is never
 released under it), across any number of sessions opening and closing. -/
 theorem listener_tracks_current (s : State) (h : Reachable s) : ∀ l ∈ s.lcalls, listenerOk s l = true := by
-  sorry
+  exact fun l hl => SigReg.listenerOk_of_inv (SigReg.inv_of_reachable h) l hl
 
 /-- The wants recorded for a peer are exactly the peers that currently hold a session
 request towards it. -/
 theorem wants_exact (s : State) (h : Reachable s) : wantsOk s = true := by
-  sorry
+  exact SigReg.wantsOk_of_inv (SigReg.inv_of_reachable h)
 
 /-- Quiescence: an active listener that is not awake and has nothing left to transmit has
 announced (announcements minus withdrawals) exactly the recorded wants… -/
 theorem quiescent_listen_sent (s : State) (h : Reachable s) : ∀ l ∈ s.lcalls, listenQuiescentOk s l = true := by
-  sorry
+  exact fun l hl => SigReg.listenQuiescentOk_of_inv (SigReg.inv_of_reachable h) l hl
 
 /-- …which are exactly the peers currently holding a session request towards it. -/
 theorem quiescent_listen_exact (s : State) (h : Reachable s) (l : LCall) (hl : l ∈ s.lcalls)
     (hrun : l.ended = false ∧ l.failing = false) (hcur : l.current s = true)
     (hq : l.isAwake s = false) (hout : l.outbox = []) (w : Nat) :
     w ∈ l.sentWant ↔ wanting s l.pid w = true := by
-  sorry
+  exact SigReg.quiescent_exact_of_inv (SigReg.inv_of_reachable h) l hl hrun hcur hq hout w
+
+/- FALSE AS STATED (no `Reachable s` hypothesis): the label `0` of `lloop` means "no choice", so in
+an (unreachable) state where the peer id `0` is wanted — or was announced — no `lloop` label is
+admissible. Counterexample state (not reachable: `init`/`lreg` require non-zero peer ids):
+  `{ tkrs := [{ tid := 1, pid := 1, wants := [0] }], lcalls := [{ id := 2, pid := 1, tkr := 1, myNonce := 0 }] }`
+see the `example` below, where every hypothesis holds and no `lloop` is enabled.
 
 /-- Progress of the listener: while it is awake and current, a loop step is enabled. -/
 theorem listener_step_enabled (s : State) (l : LCall) (t : Tkr)
     (hl : getLCall s l.id = some l) (ht : getTkr s l.tkr = some t)
     (hrun : l.ended = false ∧ l.failing = false) (hcur : t.nonce = l.myNonce)
     (haw : l.awake t = true) (hout : l.outbox = []) :
+    ∃ w n, enabled s (.lloop l.id w n) = true := (false; see the counterexample)
+-/
+
+/-- The counterexample to the unrestricted statement (checked). -/
+example : ∃ (s : State) (l : LCall) (t : Tkr), getLCall s l.id = some l ∧ getTkr s l.tkr = some t ∧
+    (l.ended = false ∧ l.failing = false) ∧ t.nonce = l.myNonce ∧ l.awake t = true ∧ l.outbox = [] ∧
+    ∀ w n, enabled s (.lloop l.id w n) = false := by
+  refine ⟨{ tkrs := [{ tid := 1, pid := 1, wants := [0] }], lcalls := [{ id := 2, pid := 1, tkr := 1, myNonce := 0 }] },
+    { id := 2, pid := 1, tkr := 1, myNonce := 0 }, { tid := 1, pid := 1, wants := [0] },
+    by decide, by decide, by decide, by decide, by decide, by decide, ?_⟩
+  intro w n
+  by_cases hw : w = 0 <;> simp [enabled, getLCall, lLoop, getTkr, hw]
+
+/-- Progress of the listener, in every state where `0` is not a peer id held in `wants`/`sentWant`:
+while it is awake and current, a loop step is enabled. -/
+theorem listener_step_enabled_of_nonzero (s : State) (l : LCall) (t : Tkr)
+    (hl : getLCall s l.id = some l) (ht : getTkr s l.tkr = some t)
+    (hrun : l.ended = false ∧ l.failing = false) (hcur : t.nonce = l.myNonce)
+    (haw : l.awake t = true) (hout : l.outbox = [])
+    (h0w : 0 ∉ t.wants) (h0s : 0 ∉ l.sentWant) :
     ∃ w n, enabled s (.lloop l.id w n) = true := by
-  sorry
+  exact SigReg.listener_step_enabled_aux s l t hl ht hrun hcur haw hout h0w h0s
+
+/-- Progress of the listener (the original statement restricted to reachable states): while it is
+awake and current, a loop step is enabled. -/
+theorem listener_step_enabled_partial (s : State) (h : Reachable s) (l : LCall) (t : Tkr)
+    (hl : getLCall s l.id = some l) (ht : getTkr s l.tkr = some t)
+    (hrun : l.ended = false ∧ l.failing = false) (hcur : t.nonce = l.myNonce)
+    (haw : l.awake t = true) (hout : l.outbox = []) :
+    ∃ w n, enabled s (.lloop l.id w n) = true := by
+  have hz := SigReg.zero_free h hl ht
+  exact SigReg.listener_step_enabled_aux s l t hl ht hrun hcur haw hout hz.1 hz.2
 
 end Bifrost.Props.C24
